@@ -13,6 +13,11 @@ for d in sorted(glob.glob('/verif/seeded/*')):
     needs = m.get('needs_to_manifest') or ''
     if isinstance(needs, list): needs = '; '.join(needs)
     res = 'caught, concrete replay' if cr.get('caught_with_input') else ('caught, no-failing-input-found' if cr.get('caught') else 'MISSED')
+    st = m.get('status_on_final_tree')
+    if st and st.startswith('the patch no longer applies'):
+        res += ' (when it applied; no longer applies to HEAD)'
+    elif st:
+        res = 'no longer a violation on the final tree (see meta.json); was: ' + res
     rows.append('| %s | %s | %s | %s |' % (os.path.basename(d), str(what).replace('|', '/').replace('\n', ' ')[:160],
                                          str(needs).replace('|', '/').replace('\n', ' ')[:140], res))
 print('| seed | what it breaks | needs to manifest | ./check result |\n|---|---|---|---|')
